@@ -36,11 +36,21 @@ inductive Kw
 deriving DecidableEq, Repr, Inhabited
 
 def Kw.text : Kw → List Char
-  | .const => "const".toList | .assertl => "assertl".toList | .assertr => "assertr".toList
-  | .fail => "fail".toList | .disconnect => "disconnect".toList | .case => "case".toList
-  | .comp => "comp".toList | .pair => "pair".toList | .injl => "injl".toList
-  | .injr => "injr".toList | .take => "take".toList | .drop => "drop".toList
-  | .unit => "unit".toList | .iden => "iden".toList | .witness => "witness".toList
+  | .const => ['c', 'o', 'n', 's', 't']
+  | .assertl => ['a', 's', 's', 'e', 'r', 't', 'l']
+  | .assertr => ['a', 's', 's', 'e', 'r', 't', 'r']
+  | .fail => ['f', 'a', 'i', 'l']
+  | .disconnect => ['d', 'i', 's', 'c', 'o', 'n', 'n', 'e', 'c', 't']
+  | .case => ['c', 'a', 's', 'e']
+  | .comp => ['c', 'o', 'm', 'p']
+  | .pair => ['p', 'a', 'i', 'r']
+  | .injl => ['i', 'n', 'j', 'l']
+  | .injr => ['i', 'n', 'j', 'r']
+  | .take => ['t', 'a', 'k', 'e']
+  | .drop => ['d', 'r', 'o', 'p']
+  | .unit => ['u', 'n', 'i', 't']
+  | .iden => ['i', 'd', 'e', 'n']
+  | .witness => ['w', 'i', 't', 'n', 'e', 's', 's']
 
 def Kw.all : List Kw :=
   [.const, .assertl, .assertr, .fail, .disconnect, .case, .comp, .pair, .injl, .injr, .take, .drop,
@@ -97,68 +107,85 @@ def skipAux : Bool → List Char → List Char
 
 def skip (cs : List Char) : List Char := skipAux false cs
 
-/-- a maximal run of symbol characters starting at a symbol-start character: keyword, `_`,
-jet name or symbol -/
-def lexWord (cs : List Char) : Tok × List Char :=
-  let s := cs.takeWhile isSymChar
-  let rest := cs.dropWhile isSymChar
-  if s == ['_'] then (.underscore, rest) else
+/-- the token that a maximal run `s` of symbol characters is: `_`, keyword, jet name or symbol -/
+def classify (s : List Char) : Tok :=
+  if s == ['_'] then .underscore else
   match kwOf s with
-  | some k => (.kw k, rest)
+  | some k => .kw k
   | none =>
     match s with
-    | 'j' :: 'e' :: 't' :: '_' :: n =>
-      if !n.isEmpty && n.all isJetChar then (.jet n, rest) else (.sym s, rest)
-    | _ => (.sym s, rest)
+    | 'j' :: 'e' :: 't' :: '_' :: n => if !n.isEmpty && n.all isJetChar then .jet n else .sym s
+    | _ => .sym s
+
+/-- a maximal run of symbol characters starting at a symbol-start character -/
+def lexWord (cs : List Char) : Tok × List Char :=
+  (classify (cs.takeWhile isSymChar), cs.dropWhile isSymChar)
+
+/-- after `-`: `->`, or a symbol that starts with `-` -/
+def lexDash (r : List Char) : Tok × List Char :=
+  match r with
+  | d :: r' => if d == '>' then (.arrow, r') else lexWord ('-' :: r)
+  | [] => lexWord ('-' :: r)
+
+/-- after `:` -/
+def lexColon (r : List Char) : Tok × List Char :=
+  match r with
+  | d :: r' => if d == '=' then (.assign, r') else (.colon, r)
+  | [] => (.colon, r)
+
+/-- after `#`: `#{` or `#` and exactly 64 hexadecimal digits -/
+def lexHash (r : List Char) : Option (Tok × List Char) :=
+  match r with
+  | d :: r' =>
+    if d == '{' then some (.hashBrace, r')
+    else
+      let ds := r.take 64
+      if ds.length == 64 && ds.all isHexAny then some (.cmr ds, r.drop 64) else none
+  | [] => none
+
+/-- after `0`: `0b[01]+` or `0x[0-9a-f]+` -/
+def lexZero (r : List Char) : Option (Tok × List Char) :=
+  match r with
+  | d :: r' =>
+    if d == 'b' then
+      let ds := r'.takeWhile isBinChar
+      if ds.isEmpty then none else some (.bin ds, r'.dropWhile isBinChar)
+    else if d == 'x' then
+      let ds := r'.takeWhile isHexLower
+      if ds.isEmpty then none else some (.hex ds, r'.dropWhile isHexLower)
+    else none
+  | [] => none
+
+/-- after `2`: `2^[1-9][0-9]*` or `2` -/
+def lexTwo (r : List Char) : Tok × List Char :=
+  match r with
+  | d :: e :: r' =>
+    if d == '^' && isPosDigit e then (.twoExp (e :: r'.takeWhile isDigit), r'.dropWhile isDigit)
+    else (.two, r)
+  | _ => (.two, r)
+
+/-- the one-character tokens that no longer token starts with -/
+def lexPunct (c : Char) : Option Tok :=
+  if c == '(' then some .lparen
+  else if c == ')' then some .rparen
+  else if c == '+' then some .plus
+  else if c == '*' then some .star
+  else if c == '}' then some .rbrace
+  else if c == '?' then some .question
+  else if c == '1' then some .one
+  else none
 
 /-- one token at a position that is neither whitespace nor the start of a comment -/
 def lexOne : List Char → Option (Tok × List Char)
   | [] => none
   | c :: r =>
     if isSymStart c then
-      if c == '-' then
-        match r with
-        | d :: r' => if d == '>' then some (.arrow, r') else some (lexWord (c :: r))
-        | [] => some (lexWord (c :: r))
-      else some (lexWord (c :: r))
-    else if c == ':' then
-      match r with
-      | d :: r' => if d == '=' then some (.assign, r') else some (.colon, r)
-      | [] => some (.colon, r)
-    else if c == '#' then
-      match r with
-      | d :: r' =>
-        if d == '{' then some (.hashBrace, r')
-        else
-          let ds := r.take 64
-          if ds.length == 64 && ds.all isHexAny then some (.cmr ds, r.drop 64) else none
-      | [] => none
-    else if c == '(' then some (.lparen, r)
-    else if c == ')' then some (.rparen, r)
-    else if c == '+' then some (.plus, r)
-    else if c == '*' then some (.star, r)
-    else if c == '}' then some (.rbrace, r)
-    else if c == '?' then some (.question, r)
-    else if c == '1' then some (.one, r)
-    else if c == '0' then
-      match r with
-      | d :: r' =>
-        if d == 'b' then
-          let ds := r'.takeWhile isBinChar
-          if ds.isEmpty then none else some (.bin ds, r'.dropWhile isBinChar)
-        else if d == 'x' then
-          let ds := r'.takeWhile isHexLower
-          if ds.isEmpty then none else some (.hex ds, r'.dropWhile isHexLower)
-        else none
-      | [] => none
-    else if c == '2' then
-      match r with
-      | d :: e :: r' =>
-        if d == '^' && isPosDigit e then
-          some (.twoExp (e :: r'.takeWhile isDigit), r'.dropWhile isDigit)
-        else some (.two, r)
-      | _ => some (.two, r)
-    else none
+      if c == '-' then some (lexDash r) else some (lexWord (c :: r))
+    else if c == ':' then some (lexColon r)
+    else if c == '#' then lexHash r
+    else if c == '0' then lexZero r
+    else if c == '2' then some (lexTwo r)
+    else (lexPunct c).map fun t => (t, r)
 
 /-- `lex_all`: `none` = `LexFailed` -/
 def lexF : Nat → List Char → Option (List Tok)
